@@ -24,6 +24,8 @@ from multiprocessing.reduction import ForkingPickler
 
 from dst.sched import SimKilled
 
+import os as _os
+_DEBUG_PAYLOAD = bool(_os.environ.get('DST_PAYLOAD_HASH'))
 FIN = ('<FIN>',)
 RST = ('<RST>',)
 
@@ -171,7 +173,12 @@ class SimConnection:
             raise BrokenPipeError(32, 'Broken pipe')
         self.n_sent += 1
         peer.inflight.append((desc, buf))
-        sim.log('SEND', peer.label, desc, len(buf))
+        if _DEBUG_PAYLOAD:
+            import hashlib
+            sim.log('SEND', peer.label, desc, len(buf),
+                    hashlib.sha256(buf).hexdigest()[:10])
+        else:
+            sim.log('SEND', peer.label, desc, len(buf))
 
     def recv(self):
         sim = self.sim
